@@ -101,6 +101,11 @@ class Net(object):
     self.seq += 1
     ev = Event(kind, conn, data, meta, self.seq)
     self.pending.append(ev)
+    delay = getattr(self, 'reply_delay', 0)
+    if kind == 'frame' and delay and not (meta or {}).get('ping'):
+      # server think time: the reply cannot arrive before now + delay (a no-op loop timer lets time get there)
+      ev.not_before = self.lp.now() + delay
+      self.lp.timer(delay).start(lambda: None)
     return ev
 
   # ---- what the scheduler can do ------------------------------------------------------------------
@@ -180,6 +185,10 @@ class Net(object):
       conn.stalled = True
     elif kind == 'block-writes':
       conn.write_blocked = True
+      conn.block_after = 0
+    elif kind == 'block-writes-partial':
+      conn.write_blocked = True
+      conn.block_after = 6
     elif kind == 'unblock-writes':
       conn.write_blocked = False
     conn.wake()
@@ -287,6 +296,16 @@ class FakeSock(object):
       c.mark_fault()
       raise _err(errno.ECONNRESET, 'Connection reset by peer')
     self.net.write_log.append((self.net.lp.now(), c.id, bytes(data)))
+    data = bytes(data)
+    if c.write_blocked and getattr(c, 'block_after', 0) > 0:
+      # the kernel buffer takes the first few bytes, then it is full: a partial write
+      k = min(c.block_after, len(data))
+      head, data = data[:k], data[k:]
+      c.block_after -= k
+      c.sent += head
+      self.net.on_client_bytes(c, head)
+      if c.peer is not None:
+        c.peer.feed(head)
     while c.write_blocked and not self.closed and not c.reset:
       self._wait(c)              # back-pressure: the kernel buffer is full
     if self.closed:
@@ -294,7 +313,6 @@ class FakeSock(object):
     if c.reset:
       c.mark_fault()
       raise _err(errno.ECONNRESET, 'Connection reset by peer')
-    data = bytes(data)
     c.sent += data
     self.net.on_client_bytes(c, data)
     if c.eof:
